@@ -44,6 +44,7 @@ def stiffness_spec():
                 "ol": st.lists(st.floats(0.0, 1.0), min_size=21, max_size=21),
                 "en": st.lists(st.floats(0.0, 1.0), min_size=21, max_size=21),
                 "tric": st.booleans(),
+                "unit": st.sampled_from([1.0, 1.0, 1e9, 1e-2, 1e3, 1e-12, 1e12]),  # GPa, Pa, Mbar, MPa, far-out
             }
         ),
     )
@@ -72,7 +73,7 @@ def _make_stiffness(u, tric):
 def tensors(spec):
     if spec["k"] == "default":
         return _minerals.StiffnessTensors()
-    return _minerals.StiffnessTensors(olivine=_make_stiffness(spec["ol"], spec["tric"]), enstatite=_make_stiffness(spec["en"], spec["tric"]))
+    return _minerals.StiffnessTensors(olivine=_make_stiffness(spec["ol"], spec["tric"]) * spec.get("unit", 1.0), enstatite=_make_stiffness(spec["en"], spec["tric"]) * spec.get("unit", 1.0))
 
 
 def voigt_case():
@@ -285,8 +286,8 @@ def check_stiffness_mutation(case):
     worst = 0.0
     for k, spec in enumerate([{"k": "default"}] + case["muts"]):
         if spec["k"] == "custom":
-            st_obj.olivine = _make_stiffness(spec["ol"], spec["tric"])
-            st_obj.enstatite = _make_stiffness(spec["en"], spec["tric"])
+            st_obj.olivine = _make_stiffness(spec["ol"], spec["tric"]) * spec.get("unit", 1.0)
+            st_obj.enstatite = _make_stiffness(spec["en"], spec["tric"]) * spec.get("unit", 1.0)
         C = {"ol": np.asarray(st_obj.olivine), "en": np.asarray(st_obj.enstatite)}
         scale = max(np.abs(C["ol"]).max(), np.abs(C["en"]).max())
         out = sut(pydrex.voigt_averages, mlist, assemblage, list(phi), st_obj)
